@@ -69,7 +69,9 @@ def run_ops(ops, max_age, init_len, warn=None, maxlen=None, P=P):
         for op in ops:
             if op[0] == "s":
                 stamp = round(stamp + op[1] * Q, 6)
-                v = {"v": Quantity(5.0), "none": None, "nan": Quantity(math.nan)}[op[2]]
+                # every other valid sample is +inf / -inf: not finite, but neither None nor NaN
+                nvalid = len(retained)
+                v = {"v": Quantity((5.0, math.inf, -math.inf)[nvalid % 3]), "none": None, "nan": Quantity(math.nan)}[op[2]]
                 F.push(snd, Sample(T0_WALL + timedelta(seconds=stamp), v))
                 loop.settle()
                 if op[2] == "v":
